@@ -5,7 +5,7 @@
 
 using namespace QXmpp::Private;
 extern "C" {
-unsigned vp_c05_noff(); unsigned vp_c05_ndis(); unsigned vp_c05_fastbits(); unsigned vp_c05_row_lo(); unsigned vp_c05_row_hi();          // list lengths of the instance (constants on the C side)
+unsigned vp_c05_noff(); unsigned vp_c05_ndis(); unsigned vp_c05_fastbits(); unsigned vp_c05_clients_created(); unsigned vp_c05_row_lo(); unsigned vp_c05_row_hi();          // list lengths of the instance (constants on the C side)
 void *vp_c05_slot(unsigned k); void vp_c05_fill(unsigned k, unsigned row);   // name slots owned by c05_str.c (characters: table_c.inc)
 }
 
@@ -319,6 +319,7 @@ extern "C" void h_mismatch_sasl1()
     QList<QString> off = makeOffer(s);
     CountingSocket sock; SaslManager mgr(&sock);
     auto task = mgr.authenticate(config, off, nullptr);
+    vp_assert(vp_c05_clients_created() == 0, "C05 nothing qualifies but a SASL client was created (SASL)");
     vp_assert(sock.sent == 0, "C05 nothing qualifies but data was sent (SASL)");
     vp_assert(task.isFinished() && task.hasResult(), "C05 nothing qualifies: authentication must end at once (SASL)");
     if (task.isFinished() && task.hasResult()) {
@@ -356,6 +357,7 @@ extern "C" void h_mismatch_sasl2()
     }
     CountingSocket sock; Sasl2Manager mgr(&sock);
     auto task = mgr.authenticate(Sasl2::Authenticate(), config, feature, nullptr);
+    vp_assert(vp_c05_clients_created() == 0, "C05 nothing qualifies but a SASL client was created (SASL 2)");
     vp_assert(sock.sent == 0, "C05 nothing qualifies but data was sent (SASL 2)");
     vp_assert(task.isFinished() && task.hasResult(), "C05 nothing qualifies: authentication must end at once (SASL 2)");
     if (task.isFinished() && task.hasResult()) {
@@ -378,83 +380,20 @@ extern "C" void h_alias_bypass()
     checkChoice(s, mech);
 }
 
-#ifdef VP_DEBUG_ENTRIES
-extern "C" void h_dbgD()
+// ---- the name that is put on the wire for a chosen mechanism: SaslMechanism::toString() -------------------------------
+// for every mechanism value m of the table: the REAL parser maps the REAL toString(m) back to m (so the <auth mechanism=...>
+// attribute written from saslClient->mechanism().toString() denotes the mechanism that was chosen)
+extern "C" void h_tostring()
 {
-    keepHelpers();
-    Sym s; makeSym(s);
-    s.disabled[0] = 5; s.disabled[1] = 4; s.hasPreferred = false; s.password = true; s.fbToken = s.fbApp = s.liveToken = s.googleToken = false; s.hasHt = false;
-    QXmppConfiguration config;
-    applyConfig(config, s, false);
-    QList<QString> off = makeOffer(s);
-    auto [mech, disabledAvailable] = chooseMechanism(config, off);
-    vp_assert(!mech || !std::holds_alternative<SaslPlainMechanism>(*mech), "C05 dbg");
+    unsigned i = vp_u32(); vp_assume(i >= vp_c05_row_lo() && i < vp_c05_row_hi() && i < IDX_FIRST_GARBAGE);
+    // HT rows are excluded for now: SaslHtMechanism::toString -> channelBindingTypeToString is compiled to a relative lookup table
+    // (llvm.load.relative), which the translator does not support (reaching it is reported as inconclusive, never as a pass)
+    vp_assume(i < IDX_FIRST_HT);
+    std::optional<SaslMechanism> m; vp_c05_make_mech(i, &m);
+    vp_assert(m.has_value(), "C05 table: rows below IDX_FIRST_GARBAGE are mechanism names");
+    if (!m) return;
+    QString name = m->toString();
+    auto back = SaslMechanism::fromString(name);
+    vp_assert(back.has_value(), "C05 toString: the written name is not accepted by the parser");
+    if (back) vp_assert(sameDesc(descOfResult(*back), descOf(i)), "C05 toString: the written name denotes a different mechanism");
 }
-extern "C" void h_dbgE()
-{
-    keepHelpers();
-    Sym s; makeSym(s);
-    s.offered[0] = 1; s.disabled[0] = 5; s.disabled[1] = 4; s.hasPreferred = false;
-    QXmppConfiguration config;
-    applyConfig(config, s, false);
-    QList<QString> off = makeOffer(s);
-    auto [mech, disabledAvailable] = chooseMechanism(config, off);
-    vp_assert(!mech || !std::holds_alternative<SaslPlainMechanism>(*mech), "C05 dbg");
-}
-extern "C" void h_dbgF()
-{
-    keepHelpers();
-    Sym s; makeSym(s);
-    s.disabled[0] = 5; s.disabled[1] = 4; s.hasPreferred = false; s.password = true; s.fbToken = s.fbApp = s.liveToken = s.googleToken = false; s.hasHt = false;
-    QXmppConfiguration config;
-    applyConfig(config, s, false);
-    QList<QString> off = makeOffer(s);
-    const auto disabled = config.disabledSaslMechanisms();
-    bool r = disabled.contains(off.at(0));
-    vp_assert(r == (s.offered[0] == 5 || s.offered[0] == 4), "C05 dbg");
-}
-extern "C" void h_dbgG()
-{
-    keepHelpers();
-    Sym s; makeSym(s);
-    QList<QString> off = makeOffer(s);
-    auto m = SaslMechanism::fromString(off.at(0));
-    vp_assert(m.has_value() == (descOf(s.offered[0]).fam != F_NONE), "C05 dbg");
-}
-extern "C" void h_dbgH()
-{
-    keepHelpers();
-    Sym s; makeSym(s);
-    s.disabled[0] = 5; s.disabled[1] = 4; s.hasPreferred = false; s.password = true; s.fbToken = s.fbApp = s.liveToken = s.googleToken = false; s.hasHt = false;
-    QXmppConfiguration config;
-    applyConfig(config, s, false);
-    QList<QString> off = makeOffer(s);
-    auto m = SaslMechanism::fromString(off.at(0));
-    bool av = m && QXmppSaslClient::isMechanismAvailable(*m, config.credentialData());
-    vp_assert(av == usable(s, descOf(s.offered[0])), "C05 dbg");
-}
-extern "C" void h_dbgA()
-{
-    keepHelpers();
-    Sym s; makeSym(s);
-    QXmppConfiguration config;
-    applyConfig(config, s, false);
-    QList<QString> off = makeOffer(s);
-    vp_assert(off.size() == int(s.nOff), "C05 dbg");
-}
-extern "C" void h_dbgB()
-{
-    keepHelpers();
-    Sym s; makeSym(s);
-    QXmppConfiguration config;
-    QList<QString> off = makeOffer(s);
-    vp_assert(off.size() == int(s.nOff), "C05 dbg");
-}
-extern "C" void h_dbgC()
-{
-    keepHelpers();
-    Sym s; makeSym(s);
-    QList<QString> off = makeOffer(s);
-    vp_assert(off.size() == int(s.nOff), "C05 dbg");
-}
-#endif
